@@ -24,6 +24,8 @@ func main() {
 		cmdAudit(os.Args[2:])
 	case "implscan":
 		cmdImplScan(os.Args[2:])
+	case "replayfile":
+		cmdReplayFile(os.Args[2:])
 	case "memfs-selfcheck":
 		cmdMemfsSelfcheck(os.Args[2:])
 	case "locals":
